@@ -32,9 +32,9 @@ TIERS = {
     # runs: number of seeds; budget: wall-clock cap in seconds (a cap, not a target)
     'C08': {'quick': {'runs': 100000, 'budget': 400}, 'thorough': {'runs': 900000, 'budget': 1700}},
     'C04': {'quick': {'runs': 6000, 'budget': 200}, 'thorough': {'runs': 120000, 'budget': 1700}},
-    'C07': {'quick': {'runs': 12000, 'budget': 200}, 'thorough': {'runs': 300000, 'budget': 1700}},
-    'C11': {'quick': {'runs': 50000, 'budget': 150}, 'thorough': {'runs': 1000000, 'budget': 1500}},
-    'C20': {'quick': {'runs': 40000, 'budget': 150}, 'thorough': {'runs': 800000, 'budget': 1500}},
+    'C07': {'quick': {'runs': 12000, 'budget': 300}, 'thorough': {'runs': 300000, 'budget': 1700}},
+    'C11': {'quick': {'runs': 50000, 'budget': 240}, 'thorough': {'runs': 1000000, 'budget': 1500}},
+    'C20': {'quick': {'runs': 40000, 'budget': 240}, 'thorough': {'runs': 800000, 'budget': 1500}},
 }
 
 
